@@ -184,6 +184,21 @@ func histCase(env *vlib.Env, h int, rep *vlib.Reporter) {
 			pos++
 			d := ob.Deliver(tx)
 			shape += tx.Label[len(tx.Label)-4:] + fmt.Sprint(d.Code)
+			if ci := tx.Msg.GetCheckIn(); ci != nil {
+				// a repeated check-in (key change) counts exactly from the fork height on
+				if _, had := ident[u.Addrs[tx.Signer]]; had {
+					active := fork.CheckInUpdateNew.Enabled && rp.Height >= fork.CheckInUpdateNew.Height
+					rep.Obs("repeated_checkins_judged", 1)
+					if rp.Height == fork.CheckInUpdateNew.Height && fork.CheckInUpdateNew.Enabled {
+						rep.Obs("repeated_checkins_in_the_fork_block", 1)
+					}
+					if active != (d.Code == 0) {
+						rep.Violationf("key-change-vs-fork-height", map[string]any{"history": h, "shape": shape, "height": rp.Height, "fork_enabled": fork.CheckInUpdateNew.Enabled, "fork_height": fork.CheckInUpdateNew.Height, "code": d.Code},
+							"a repeated check-in at height %d was answered with code %d, but the check-in fork (enabled=%t, height %d) says active=%t", rp.Height, d.Code, fork.CheckInUpdateNew.Enabled, fork.CheckInUpdateNew.Height, active)
+						return
+					}
+				}
+			}
 			if d.Code != 0 {
 				continue
 			}
